@@ -39,6 +39,8 @@ cfg("C01pg_quick", 0, 1, 3, 2, ["CreateObject", "AddData", "AddToGroup", "ScrubD
     names=("a", "b"), vals=(1,))
 # copies of objects that own property groups, then close / re-open (every object class: the class-specific copy() overrides differ)
 cfg("C01cp_quick", 0, 2, 2, 2, ["CreateObject", "AddData", "AddToGroup", "Copy", "Close", "Open"], 6, names=("a",), vals=(1,))
+# successive metadata assignments on stored groups and objects (the setter merges), close / re-open in between
+cfg("C01md_quick", 1, 1, 1, 1, ["CreateGroup", "CreateObject", "SetMeta", "Close", "Open"], 6, names=("a",), vals=(1, 2))
 cfg("C01_thorough", 2, 1, 2, 1, BASE + ["MoveSame", "AddDataFails", "SaveAs", "CreateDeferred", "SetMeta"], 5, names=("a", "b"))
 # comments and attached files on groups and objects through create / copy / remove / re-open
 cfg("C01cf_quick", 1, 1, 3, 1, ["CreateGroup", "CreateObject", "AddComment", "AddFile", "AddData", "Copy", "Move", "RemoveViaWorkspace",
